@@ -59,7 +59,10 @@ Definition max_of (l : list nat) : nat := fold_left Nat.max l 0.
         their ancestors (declarative recursion over the history; used as the
         brute-force oracle) ---- *)
 Definition anc_entry (tbl : list (list nat)) (ps : list nat) : list nat :=
-  dedup (flat_map (fun p => p :: nth p tbl []) ps).
+  match ps with
+  | [p] => p :: nth p tbl []            (* no duplicates possible: p is not its own ancestor *)
+  | _ => dedup (flat_map (fun p => p :: nth p tbl []) ps)
+  end.
 
 Definition anc_table (h : hist) : list (list nat) := build anc_entry h.
 
